@@ -57,6 +57,7 @@ type req struct {
 	wake  chan resp
 	until time.Duration // sleep: wake time
 	armed bool
+	since time.Duration // when the request was posted
 }
 
 type resp struct {
@@ -393,7 +394,7 @@ func (s *Sim) complete(r *req, alt int) {
 		} else {
 			m.readers++
 		}
-		s.logG(r.g, Ev{Kind: kindNames[r.kind], N: m.id})
+		s.logG(r.g, Ev{Kind: kindNames[r.kind], N: m.id, Note: itoa(int64(s.now - r.since))})
 		s.reply(r, resp{})
 
 	case rUnlock, rRUnlock:
